@@ -78,7 +78,7 @@ func grammarCase0(ctx *Ctx, i int, prec bool) (*wl.Spec, string) {
 		// more than 64 table columns
 		return wl.BigCFG(r.Sub("big")), "big"
 	}
-	if i%40 == 13 {
+	if i%20 == 13 {
 		// any printable literal, a long (sometimes low-numbered) rule, two-digit rule numbers
 		return wideSpec(r.Sub("wide")), "wide"
 	}
